@@ -31,6 +31,7 @@ def bfs(
     *,
     snapshot: Callable[[Any], Any] = lambda w: None,
     close: Callable[[Any], None] = lambda w: None,
+    roots: Iterable[tuple] = ((),),
 ) -> Result:
     """Explore every history up to `depth` events.
 
@@ -39,14 +40,24 @@ def bfs(
     oracle(hist, ev, before, world_after, result) -> [(key, what)].
     """
     r = Result()
-    w0 = build(())
-    r.seen[canon(w0)] = ()
-    close(w0)
-    frontier = collections.deque([()])
+    frontier: collections.deque = collections.deque()
+    limit: dict[tuple, int] = {}
+    budget: dict[Hashable, int] = {}
+    for root in roots:  # (non-initial starting states: each root is itself a history, `depth` counts from it)
+        root = tuple(root)
+        w0 = build(root)
+        k0 = canon(w0)
+        close(w0)
+        if k0 not in r.seen:
+            r.seen[k0] = root
+            budget[k0] = depth
+            frontier.append(root)
+            limit[root] = len(root) + depth
     while frontier:
         h = frontier.popleft()
         r.max_depth = max(r.max_depth, len(h))
-        if len(h) >= depth:
+        lim = limit.pop(h) if h in limit else limit.get(None, depth)
+        if len(h) >= lim:
             continue
         w = build(h)
         acts = list(enabled(w))
@@ -62,7 +73,10 @@ def bfs(
                     r.violations[key] = {"what": f"after {list(h) + [ev]}: {what}", "replay": {"hist": [list(e) for e in h] + [list(ev)]}}
             k = canon(w)
             close(w)
-            if k not in r.seen:
-                r.seen[k] = h + (ev,)
+            left = lim - len(h) - 1
+            if k not in r.seen or left > budget.get(k, -1):  # (new, or reached before with fewer steps left: expand again)
+                r.seen.setdefault(k, h + (ev,))
+                budget[k] = left
                 frontier.append(h + (ev,))
+                limit[h + (ev,)] = lim
     return r
